@@ -174,6 +174,10 @@ func runBatch(id, tier string, seed int64, b props.Batch, bin, binRace, runDir, 
 		runSynctest(o, id, tier, seed, b, runDir, onlyCase)
 		return o
 	}
+	if b.Kind == "gofuzz" {
+		runGoFuzz(o, id, tier, seed, b, runDir)
+		return o
+	}
 	exe := bin
 	if b.Race {
 		exe = binRace
